@@ -19,7 +19,7 @@ META = {
             "timestamp in the producer set in force after a vetted block (C09_accepted_blocks_legitimate, by induction over arrivals with "
             "the orphan-pool invariant); stored side-branch blocks and parked orphans satisfy the signature and clock clauses. Partial: "
             "the set is the one in force after the block's own parent only while no reorganisation failed in rollforward "
-            "(C09_connected_validated_against_parent_partial / _refuted, known finding F41). raftv2 enforces the signature clause only, sbp "
+            "(C09_connected_validated_against_parent_partial / _refuted, known finding F42). raftv2 enforces the signature clause only, sbp "
             "none (theorems, property written for DPoS). All models are tied to /repo on every run: real slot package, real "
             "DPoS.IsBlockValid/VerifySign/VerifyTimestamp, a real ChainService fed with real signed blocks behind an adapter running the "
             "DPoS verification code (result, consensus call order, main chain, chain DB, orphan pool, errBlocks after every arrival), "
@@ -330,57 +330,69 @@ def run(ctx):
 
 def chain_level(ctx):
     """Correspondence of coq/Dpos/Accept.v with chain/chainhandle.go (+ orphanpool, reorg) under the
-    DPoS verification functions, and the property itself on the engine's observations."""
-    rc, log, chainbin = ctx.go_test_binary(
-        "chain", [os.path.join(vf.HARNESS, "engines/c09chain/zz_verif_c09chain_engine_test.go")], "c09chain.test")
+    DPoS verification functions, and the property itself on the engine's observations.
+    Engine A (package chain): real ChainService + adapter with the DPoS function bodies, scripted
+    producer-set changes.  Engine B (package dpos): real ChainService + the real DPoS object, fixed set."""
+    import time
+    E = os.path.join(vf.HARNESS, "engines/c09chain")
+    rc, log, chainbin = ctx.go_test_binary("chain", [os.path.join(E, "zz_verif_c09chain_engine_test.go")], "c09chain.test")
     if rc != 0:
         raise RuntimeError("c09chain engine build failed:\n" + log[-3000:])
+    rc, log, dposchainbin = ctx.go_test_binary(
+        "consensus/impl/dpos", [os.path.join(E, "zz_verif_c09dpos_engine_test.go")], "c09dpos.test",
+        overlay_extra={"chain/zz_verif_c09_chain_shim.go": os.path.join(E, "zz_verif_c09_chain_shim.go")})
+    if rc != 0:
+        raise RuntimeError("c09 dpos-chain engine build failed:\n" + log[-3000:])
     quick = ctx.tier == "quick"
-    S = c09chain.load_corpus(os.path.join(vf.VERIF, "corpus", "C09"))
-    ncorpus = len(S)
+    corpus = c09chain.load_corpus(os.path.join(vf.VERIF, "corpus", "C09"))
     fam = c09chain.small_tree_family(["nonmember", "wrongslot", "wrongkey", "future"])
+    SA = corpus + (ctx.rng.sample(fam, 40) if quick else fam)
+    SA += [c09chain.random_scenario(ctx.rng, i) for i in range(110 if quick else 4000)]
+    SB = c09chain.for_real_dpos(corpus)
     if quick:
-        fam = ctx.rng.sample(fam, 40)
-    S += fam
-    S += [c09chain.random_scenario(ctx.rng, i) for i in range(110 if quick else 4000)]
+        SB = [sc for sc in SB if not any(op[0] == "W" for op in sc["ops"])]
+    else:
+        SB += c09chain.for_real_dpos(fam)
+    SB += [c09chain.random_scenario(ctx.rng, i, fixed=True) for i in range(50 if quick else 1500)]
     fails, broken = [], None
     CHUNK = 400
-    narr = 0
-    classes = {}
-    nontriv = set()
-    for c0 in range(0, len(S), CHUNK):
-        part = S[c0:c0 + CHUNK]
-        import time
-        t2 = time.time()
-        outs = c09chain.run_engine(ctx, chainbin, part, tag="c09chain%d" % (c0 // CHUNK))
-        ctx.cov["timing_s"]["chain_engine"] = round(ctx.cov["timing_s"].get("chain_engine", 0) + time.time() - t2, 1)
-        for sc, out in zip(part, outs):
-            fails += c09chain.direct_predicates(sc, out)
-            narr += len(out["obs"])
-            for ob in out["obs"]:
-                classes[ob["r"]] = classes.get(ob["r"], 0) + 1
-                nontriv.add((ob["r"], c09chain.call_shape(ob["calls"])))
-        txt, k = c09chain.coq_cases(part, outs)
-        rc, out = ctx.coq_eval("chain_cases%d" % (c0 // CHUNK), txt)
-        d = c09chain.parse_diffs(out, k) if rc == 0 else None
-        if d is None or len(d) != len(part):
-            broken = broken or ("chain-level correspondence could not be evaluated", out[-2000:])
-            continue
-        for sc, o, x in zip(part, outs, d):
-            if x and not broken:
-                broken = ("model (Dpos/Accept.v) and ChainService differ at arrival %d of scenario %s" % (x - 1, sc["name"]),
-                          dict(scenario=sc, blocks=o["blocks"], arrivals=o["obs"][:x]))
-        if c0 == 0:
-            ctx.sample({"chain_scenario": part[0]["name"], "blocks": outs[0]["blocks"],
-                        "arrivals": [{k2: v for k2, v in ob.items() if k2 in ("id", "r", "calls", "main", "orph")} for ob in outs[0]["obs"]]})
+    stats = {"arrivals": 0, "classes": {}, "nontriv": set()}
+    for label, binp, test, S in (("A", chainbin, "TestVerifC09ChainEngine", SA), ("B", dposchainbin, "TestVerifC09DposChainEngine", SB)):
+        for c0 in range(0, len(S), CHUNK):
+            part = S[c0:c0 + CHUNK]
+            t2 = time.time()
+            outs = c09chain.run_engine(ctx, binp, part, tag="c09chain%s%d" % (label, c0 // CHUNK), test=test)
+            ctx.cov["timing_s"]["chain_engine"] = round(ctx.cov["timing_s"].get("chain_engine", 0) + time.time() - t2, 1)
+            for sc, out in zip(part, outs):
+                fails += c09chain.direct_predicates(sc, out)
+                stats["arrivals"] += len(out["obs"])
+                for ob in out["obs"]:
+                    stats["classes"][ob["r"]] = stats["classes"].get(ob["r"], 0) + 1
+                    stats["nontriv"].add((ob["r"], c09chain.call_shape(ob["calls"])))
+                if label == "B" and out.get("lib", 0) != 0 and not broken:
+                    broken = ("real DPoS: the LIB moved in scenario %s built to keep it at the genesis block" % sc["name"], dict(scenario=sc, lib=out.get("lib")))
+            txt, k = c09chain.coq_cases(part, outs)
+            rc, out = ctx.coq_eval("chain_cases%s%d" % (label, c0 // CHUNK), txt)
+            d = c09chain.parse_diffs(out, k) if rc == 0 else None
+            if d is None or len(d) != len(part):
+                broken = broken or ("chain-level correspondence could not be evaluated", out[-2000:])
+                continue
+            for sc, o, x in zip(part, outs, d):
+                if x and not broken:
+                    broken = ("model (Dpos/Accept.v) and ChainService differ at arrival %d of scenario %s (engine %s)" % (x - 1, sc["name"], label),
+                              dict(scenario=sc, blocks=o["blocks"], arrivals=o["obs"][:x]))
+            if c0 == 0 and label == "A":
+                ctx.sample({"chain_scenario": part[0]["name"], "blocks": outs[0]["blocks"],
+                            "arrivals": [{k2: v for k2, v in ob.items() if k2 in ("id", "r", "calls", "main", "orph")} for ob in outs[0]["obs"]]})
+    narr = stats["arrivals"]
     ctx.cov["evaluations"] = ctx.cov.get("evaluations", 0) + narr
     ctx.cov["traces_validated_against_impl"] = ctx.cov.get("traces_validated_against_impl", 0) + narr
-    ctx.cov["distinct_nontrivial"] = ctx.cov.get("distinct_nontrivial", 0) + len(nontriv)
+    ctx.cov["distinct_nontrivial"] = ctx.cov.get("distinct_nontrivial", 0) + len(stats["nontriv"])
     ctx.cov["rule"] = ctx.cov.get("rule", "") + ("; chain level: arrivals of signed blocks at a real ChainService (trees <= 7 blocks, every "
                                                  "defect kind, any order, duplicates, producer-set changes), distinct = distinct (result class, "
                                                  "sequence of consensus call kinds) pairs")
-    ctx.cov["chain_level"] = {"scenarios": len(S), "corpus": ncorpus, "arrivals": narr, "result_classes": classes,
-                              "distinct_(result,call-shape)": len(nontriv)}
+    ctx.cov["chain_level"] = {"scenarios_adapter_engine": len(SA), "scenarios_real_dpos_engine": len(SB), "corpus": len(corpus),
+                              "arrivals": narr, "result_classes": stats["classes"], "distinct_(result,call-shape)": len(stats["nontriv"])}
     return fails, broken
 
 
